@@ -30,7 +30,7 @@ def b64(b):
 
 def basic_headers(rng):
     creds = [b"basic:sb", b"basic:wrong", b"basic:", b"basic", b":sb", b"post:sp", b"pub:", b"pub:x", b"unknown:sb", b"both:s:x y%", b"both:s%3Ax%20y%25", b"b%61sic:sb", b"both%3As:x y%25", b"basic%3Asb", b"basic%3Asb:", b"basic%3A:sb",
-             b"basic:sb:extra", b"\xff\xfe:x", b"basic:s\xc3\xa9", b""]
+             b"basic:sb:extra", b"basic%ff:sb", b"basic:s%c3%28", b"\xff\xfe:x", b"basic:s\xc3\xa9", b""]
     shapes = ["Basic {b}", "basic {b}", "BASIC {b}", "Basic  {b}", "Basic {b} ", "Basic {b}=", "Basic", "Basic ", "Bearer {b}", "Basic\t{b}", "Basic !{b}", " Basic {b}"]
     out = [None]
     for c in creds:
